@@ -2,6 +2,8 @@ import MosnVerif.Drive.Downstream
 import MosnVerif.Drive.DownstreamMC
 import MosnVerif.Model.DownstreamSpec
 import MosnVerif.Model.DownstreamBackoff
+import MosnVerif.Drive.C03ReplyWrite
+import MosnVerif.Drive.C03XHijack
 /-!
 C03 driver.  `A` = the model's trace, ledger and done flag equal the implementation's, token for token.
 `Spec` (about the IMPLEMENTATION's output, written against the declarative sender automaton of DownstreamSpec and the
@@ -195,6 +197,8 @@ def hasTb (caseToks : List String) : Bool :=
 
 def run (caseToks impl : List String) : String :=
   if caseToks.head? == some "mc" then DownstreamMC.run caseToks else
+  if caseToks.head? == some "rw" then C03RW.run caseToks impl else   -- c03w10: the reply write path with a failing sender (Drive/C03ReplyWrite.lean)
+  if caseToks.head? == some "xh" then C03XH.run caseToks impl else   -- c03t10: per-codec MOSN-generated replies on the wire (Drive/C03XHijack.lean)
   if caseToks.head? == some "upf" then upfRun caseToks impl else
   if hasTb caseToks then (tbRun caseToks impl).getD "E E bad-tb" else
   match parseCase caseToks, parseImpl impl with
